@@ -20,19 +20,23 @@
 (***************************************************************************)
 EXTENDS Naturals, Sequences, FiniteSets, TLC
 
-CONSTANT LitPlusSet     \* set of BOOLEAN: server advertises LITERAL+ (LITERAL- is implied by IMAP4rev1)
+CONSTANTS LitPlusSet,   \* set of BOOLEAN: server advertises LITERAL+ (LITERAL- is implied by IMAP4rev1)
+          Utf8Set       \* set of BOOLEAN: the client has enabled UTF8=ACCEPT (the server may then quote 8-bit strings)
 
 VARIABLES litplus,  \* configuration, chosen in Init
+          utf8,     \* configuration, chosen in Init (only an authenticated connection can have enabled anything)
           state,    \* "notauth" | "auth"
           closed,   \* connection closed by the server
           stuck,    \* server is consuming an over-long literal whose octets the client never sends
           out       \* observation of the last unit
 
-vars == <<litplus, state, closed, stuck, out>>
+vars == <<litplus, utf8, state, closed, stuck, out>>
 
 \* ---- units -------------------------------------------------------------
 \* placements of the string argument
-BufferedCmds == {"LOGIN-user", "LOGIN-pass", "CREATE", "LIST-pat", "SEARCH-str", "RENAME-new"}
+\* FETCH-hdr: FETCH 1 BODY.PEEK[HEADER.FIELDS (<string>)] - the string comes back in the response (the section
+\* specification is echoed), so whatever the client put into it must leave the server as a well-formed string
+BufferedCmds == {"LOGIN-user", "LOGIN-pass", "CREATE", "LIST-pat", "SEARCH-str", "RENAME-new", "FETCH-hdr"}
 StreamCmds   == {"APPEND"}
 SyntaxCmds   == {"NOOP-lit", "XUNK-lit"}       \* literal announced after a syntax error / unknown command
 PlainCmds    == {"NOOP", "AUTH-CANCEL", "IDLE"} \* no literal; the latter two use continuation requests
@@ -82,6 +86,7 @@ Obs(tagged, cont, call) == [tagged |-> tagged, cont |-> cont, call |-> call]
 Init ==
   /\ litplus \in LitPlusSet
   /\ state \in {"notauth", "auth"}
+  /\ utf8 \in Utf8Set /\ (utf8 => state = "auth")
   /\ closed = FALSE /\ stuck = FALSE
   /\ out = Obs("OK", 0, "none")
 
@@ -89,7 +94,7 @@ Alive == ~closed /\ ~stuck
 
 CallOf(u) == IF u.cmd \in {"NOOP", "AUTH-CANCEL"} THEN "none"
              ELSE IF u.cmd = "IDLE" THEN "plain"
-             ELSE IF u.cmd \in {"LIST-pat", "SEARCH-str", "LOGIN-user", "LOGIN-pass", "CREATE", "RENAME-new", "APPEND"} THEN "payload"
+             ELSE IF u.cmd \in {"LIST-pat", "SEARCH-str", "LOGIN-user", "LOGIN-pass", "CREATE", "RENAME-new", "APPEND", "FETCH-hdr"} THEN "payload"
              ELSE "none"
 
 \* arguments that are mailbox names: a payload with CR/LF is not a valid (modified UTF-7) name,
@@ -112,13 +117,13 @@ Execute(u) ==
   \* drop the connection (the property allows closing instead of going on)
   /\ \/ closed' = closed
      \/ closed' = TRUE /\ u.cmd \in MailboxCmds /\ u.payload = "smuggle" /\ out'.tagged = "NOTOK"
-  /\ UNCHANGED <<litplus, stuck>>
+  /\ UNCHANGED <<litplus, utf8, stuck>>
 
 \* A synchronising literal the server does not want: tagged refusal, no continuation request.
 RefuseSync(u) ==
   /\ Alive /\ WellFormedUnit(u) /\ u.form = "sync" /\ ~Accepts(u)
   /\ out' = Obs("NOTOK", 0, "none")
-  /\ UNCHANGED <<litplus, state, closed, stuck>>
+  /\ UNCHANGED <<litplus, utf8, state, closed, stuck>>
 
 \* A non-synchronising literal the server does not want.  RFC 7888 leaves two options.
 RefuseNonSyncConsume(u) ==
@@ -127,20 +132,20 @@ RefuseNonSyncConsume(u) ==
      THEN \* the client announces more than it will ever send: the server waits for the rest
           /\ stuck' = TRUE /\ \E t \in {"NOTOK", "NONE"} : out' = Obs(t, 0, "none")
      ELSE /\ stuck' = FALSE /\ out' = Obs("NOTOK", 0, "none")
-  /\ UNCHANGED <<litplus, state, closed>>
+  /\ UNCHANGED <<litplus, utf8, state, closed>>
 
 RefuseNonSyncClose(u) ==
   /\ Alive /\ WellFormedUnit(u) /\ u.form = "nonsync" /\ ~Accepts(u)
   /\ closed' = TRUE
   /\ \E t \in {"NOTOK", "NONE"} : out' = Obs(t, 0, "none")
-  /\ UNCHANGED <<litplus, state, stuck>>
+  /\ UNCHANGED <<litplus, utf8, state, stuck>>
 
 \* An unknown command before authentication ends the connection (cross-protocol protection);
 \* whatever follows on the wire is never read.
 UnknownPreAuth(u) ==
   /\ Alive /\ WellFormedUnit(u) /\ u.cmd = "XUNK-lit" /\ state = "notauth"
   /\ closed' = TRUE /\ out' = Obs("NOTOK", 0, "none")
-  /\ UNCHANGED <<litplus, state, stuck>>
+  /\ UNCHANGED <<litplus, utf8, state, stuck>>
 
 Step(u) == \/ Execute(u)
            \/ (~(u.cmd = "XUNK-lit" /\ state = "notauth") /\ (RefuseSync(u) \/ RefuseNonSyncConsume(u) \/ RefuseNonSyncClose(u)))
